@@ -187,6 +187,7 @@ pub struct RefModel {
     flows: VecDeque<(i8, Dd)>,
     ties: VecDeque<bool>,
     prev: Option<f64>,
+    prev_hlc: Option<[f64; 3]>,
     e: [RefEma; 3],
     eb: [BoundEma; 2],
     obv: Dd,
@@ -217,6 +218,7 @@ impl RefModel {
             flows: VecDeque::new(),
             ties: VecDeque::new(),
             prev: None,
+            prev_hlc: None,
             e,
             eb,
             obv: Dd::ZERO,
@@ -503,6 +505,7 @@ impl RefModel {
                 out.scale = 100.0;
                 if t == 1 {
                     out.v[0] = dd(50.0);
+                    self.prev_hlc = bar.map(|b| [b.h, b.l, b.c]);
                 } else {
                     let ptp = self.wtp[self.wtp.len() - 2];
                     let raw = tp * dd(vol);
@@ -512,13 +515,21 @@ impl RefModel {
                         Ordering::Equal => 0,
                     };
                     let gap = (tp - ptp).abs().to_f64();
-                    let near = sign != 0 && gap <= 4.0 * EPS * tp.abs().to_f64().max(ptp.abs().to_f64());
+                    // f64 evaluation of (c+h+l)/3 is off by up to ~2 ulp per typical price, so a gap
+                    // within 4ε·|tp| can be ordered either way by a correct implementation — unless the
+                    // two bars carry identical prices, in which case the tie is exact in f64 as well
+                    let same_prices = match (bar, self.prev_hlc) {
+                        (Some(b), Some(q)) => [b.h, b.l, b.c] == q,
+                        _ => false,
+                    };
+                    let near = !same_prices && gap <= 4.0 * EPS * tp.abs().to_f64().max(ptp.abs().to_f64());
                     self.flows.push_back((sign, raw));
                     self.ties.push_back(near);
                     while self.flows.len() > n {
                         self.flows.pop_front();
                         self.ties.pop_front();
                     }
+                    self.prev_hlc = bar.map(|b| [b.h, b.l, b.c]);
                     let rf = raw.abs().to_f64();
                     if sign != 0 && rf > self.max_flow {
                         self.max_flow = rf;
